@@ -790,7 +790,17 @@ func (c *c09) Summary(w *sim.World) (string, []string) {
 var C09 = register(&HistProp{ID: "C09",
 	Genesis: func(t *rapid.T) *sim.GenSpec { return sim.DrawGenesis(t, sim.GenOpts{BigBalances: true, Decoys: true, NoAttesters: true}) },
 	Next: func(g *sim.G, i int) *sim.Op {
-		return Mix{Send: 5, Dep: 5, Replace: 7, RepDep: 7, Admin: 4, DepValid: 92, ReplaceValid: 50, AdminHolder: 90, Rollback: 5, AttProbe: 3, MsgrProbe: 3,
+		if op := queuedOp(g); op != nil {
+			return op
+		}
+		if g.Pct("attrollback", 5) {
+			// an attester-set change rolled back together with a failing message that read the set; then
+			// replacements attested by the set as the change would have left it
+			ops := rollbackProbeOf(g, "arb", []string{"EnableAttester", "DisableAttester", "UpdateSignatureThreshold"})
+			queueOps(g, ops[1:]...)
+			return ops[0]
+		}
+		return Mix{Send: 5, Dep: 5, Replace: 7, RepDep: 7, Admin: 4, DepValid: 92, ReplaceValid: 50, AdminHolder: 90, Rollback: 8, AttProbe: 3, MsgrProbe: 3,
 			AdminTypes: []string{"PauseBurningAndMinting", "UnpauseBurningAndMinting", "UnpauseBurningAndMinting", "PauseSendingAndReceivingMessages", "UnpauseSendingAndReceivingMessages", "UnpauseSendingAndReceivingMessages",
 				"EnableAttester", "DisableAttester", "UpdateSignatureThreshold", "UpdateMaxMessageBodySize"}}.next(g)
 	},
